@@ -7,5 +7,5 @@ import "verifharness/vlib"
 func schedulesPart(r *vlib.Run) string {
 	r.ForkAux("sched", 10)
 	r.Assume = append(r.Assume, "schedules part: the scenarios with several maps run one schedule each (the producers are started in Go's map iteration order, which no replay can reproduce); schedules beyond the preemption bound and data files beyond the listed ones are outside this part")
-	return " part 3 (schedules, auxiliary binary c09_sched): the real Codec.Preprocess under the controlled scheduler with happens-before events for every struct field, package variable, captured local, slice element, append/copy target and map of package dnsdata, on 10 data files: no map; one map with 2 subnets, with 99, exactly 100 and 101 range points (one chunk, one full chunk, a full chunk plus one line), with 123 and with 243 range points (three chunks through a channel of capacity 1); two maps of 2 and three maps of 60 subnets; 40 ordinary and two SOA lines around a map of 60 subnets (output beyond the reader's 512-byte buffer). Every interleaving within the preemption bound (2 for the small single-map files, 1 for the larger ones, 0 for the 243-point file; one more in thorough; the several-map files: the default schedule only) is executed; races, deadlock, panics are violations, and on every complete execution the preprocessed text must compile (dnsdata.Parse, the RocksDB compiler's codec, v1 and v2 keys) to the same records as the original."
+	return " part 3 (schedules, auxiliary binary c09_sched): the real Codec.Preprocess under the controlled scheduler with happens-before events for every struct field, package variable, captured local, slice element, append/copy target and map of package dnsdata, on 10 data files: no map; one map with 2 subnets, with 99, exactly 100 and 101 range points (one chunk, one full chunk, a full chunk plus one line), with 123 and with 243 range points (three chunks through a channel of capacity 1); two maps of 2 and three maps of 60 subnets; 40 ordinary and two SOA lines around a map of 60 subnets (output beyond the reader's 512-byte buffer). Every interleaving within the preemption bound (2 for the two small files, 1 for the files with 99, 100 and 101 range points, 0 - schedules that differ only in which of the runnable goroutines continues when the running one blocks or ends - for the larger files; thorough: 3 for the two small files, 1 for all other single-map files; the several-map files: bound 0 in both tiers) is executed; races, deadlock, panics are violations, and on every complete execution the preprocessed text must compile (dnsdata.Parse, the RocksDB compiler's codec, v1 and v2 keys) to the same records as the original."
 }
